@@ -443,9 +443,19 @@ class Ctx:
         base = re.sub(r"[^A-Za-z0-9_]", "_", base)
         if base in RESERVED or base in self.funcs_coqnames():
             base = base + "_v"
+        # names already handed out in this function (the set lives inside self.counter so that the
+        # per-function reset `ctx.counter = {}` clears it too).  Without it `fresh("r_0")` called twice
+        # and `fresh("r_0_1")` both yield "r_0_1" and the later binder silently shadows the earlier one.
+        used = self.counter.setdefault("\0used", set())
         k = self.counter.get(base, 0)
-        self.counter[base] = k + 1
-        return base if k == 0 else "%s_%d" % (base, k)
+        while True:
+            name = base if k == 0 else "%s_%d" % (base, k)
+            k += 1
+            if name not in used:
+                break
+        self.counter[base] = k
+        used.add(name)
+        return name
 
     def funcs_coqnames(self):
         return {v[0] for v in self.funcs.values()}
